@@ -135,6 +135,18 @@ func (conn *Conn) Serve() {
 }
 
 // Close will manually close this connection, even if the client isn't ready.
+// setDataConn makes socket the data connection of the session. A socket that
+// was requested earlier and never used (PASV or PORT sent twice) is released
+// first, nobody else holds it: its listener and its accept routine would stay
+// behind for good.
+func (conn *Conn) setDataConn(socket DataSocket) {
+	if conn.dataConn != nil {
+		conn.dataConn.Close()
+	}
+
+	conn.dataConn = socket
+}
+
 func (conn *Conn) Close() {
 	//send quit message
 	//conn.rcv <- "q"
